@@ -1,4 +1,4 @@
-//go:build verif
+//go:build verif && (p_all || p_c03)
 
 package props
 
@@ -384,40 +384,6 @@ func c03Generate(c *mon.Ctx) {
 	})
 }
 
-func strictHex(s string) ([]byte, bool, bool) {
-	if len(s)%2 != 0 {
-		return nil, false, false
-	}
-
-	upper := false
-	out := make([]byte, len(s)/2)
-
-	for i := 0; i < len(s); i++ {
-		var v byte
-
-		ch := s[i]
-
-		switch {
-		case ch >= '0' && ch <= '9':
-			v = ch - '0'
-		case ch >= 'a' && ch <= 'f':
-			v = ch - 'a' + 10
-		case ch >= 'A' && ch <= 'F':
-			v = ch - 'A' + 10
-			upper = true
-		default:
-			return nil, false, false
-		}
-
-		if i%2 == 0 {
-			out[i/2] = v << 4
-		} else {
-			out[i/2] |= v
-		}
-	}
-
-	return out, true, upper
-}
 
 func c03RunSeq(c *mon.Ctx, cs *c03Case) {
 	recv := [2]*secp256k1.Element{}
@@ -707,5 +673,51 @@ func c03Why(in []byte, dec string) string {
 		return "prefix-or-form"
 	default:
 		return "length"
+	}
+}
+
+func c03RunConc(c *mon.Ctx, seed uint64) {
+	r := concRng("C03", seed)
+
+	var jobs []func() string
+
+	for i := 0; i < concJobs; i++ {
+		p := gen.Fresh(r).P
+		in := oracle.EncC(p)
+
+		switch i % 4 {
+		case 1:
+			in = oracle.EncU(p)
+		case 2:
+			in = append([]byte{2}, oracle.Bytes32(gen.Draw256(r, oracle.P).X)...)
+		case 3:
+			in = oracle.EncU(p)
+			in[40] ^= 1
+		}
+
+		want, accept := oracle.DecodeRef(in, oracle.FormAny)
+		jobs = append(jobs, func() string {
+			e, pre := c03Pre(1)
+			err := e.Decode(in)
+
+			if (err == nil) != accept {
+				return fmt.Sprintf("Decode(%s) accepted=%v, want %v", mon.H(in), err == nil, accept)
+			}
+
+			exp := pre
+			if accept {
+				exp = want
+			}
+
+			if v, ok := mon.RawValue(e); !ok || !v.Equal(exp) {
+				return fmt.Sprintf("receiver holds %s after Decode(%s), want %s", v, mon.H(in), exp)
+			}
+
+			return ""
+		})
+	}
+
+	if c.RunConcurrent("Decode", "decode-concurrent", 600, jobs) {
+		c.Seen("conc", seed)
 	}
 }
